@@ -773,6 +773,63 @@ theorem failover_route_admission (H : Hash) (s : Store) (now : Int) (k : QKey) (
         by_cases h : c'.isRequestLocal = true <;> simp [h, hne]
       simp [this]
 
+/-- **Optional enrichment never becomes shared state.** Whatever request tree
+the detached IPv6 name-server address job was started from (any accounting
+mode: with or without a work ledger), nothing it fails at is admitted: its
+SERVFAILs are not cacheable, the write-back is the identity, and no lookup
+result publishes a zone failure. -/
+theorem optional_enrichment_never_shared (c : Ctx) :
+    cacheableResolutionFailure (v6JobCtx c) = false ∧
+    (∀ (H : Hash) (s : Store) (now : Int) (k : QKey) (w : Nat), s.writeBackFailure H now (v6JobCtx c) k w = s) ∧
+    (∀ ze nsl r, resolveRecordsZone (v6JobCtx c) ze nsl r = false) ∧
+    (∀ ze r, delegationRecordsZone (v6JobCtx c) ze r = false) := by
+  have h := local_causes_never_shared (v6JobCtx c) (Or.inr (Or.inl rfl))
+  refine ⟨h.1, h.2, ?_, ?_⟩
+  · intro ze nsl r
+    cases hr : resolveRecordsZone (v6JobCtx c) ze nsl r with
+    | false => rfl
+    | true => have := (local_causes_never_recorded_as_zone_failure _ ze nsl r hr).2.1; simp [v6JobCtx] at this
+  · intro ze r
+    cases r <;> simp [delegationRecordsZone, zoneFailureAdmitted, v6JobCtx]
+
+/-- **The Store's own reset on the sub-query route.** A useful unscoped write
+through `Store.SetFromResponse` — answer, referral, NXDOMAIN or NODATA alike
+(`RespClass.useful`) — leaves no exact state for that (well-formed) question,
+so its next failure starts at the minimum; and `ClearZoneFailure` removes the
+zone's state whether or not it is still active. -/
+theorem store_route_resets (H : Hash) (s : Store) (now : Int) (k : QKey) (hen : s.disabled = false)
+    (hwf : isFqdn (canonicalName k.name) = true) (hsc : k.scope = none) :
+    loadQuestion H (s.setFromResponse H now k.name k.qtype k.qclass k.cd false .useful).tab (normalizeQ k) = none ∧
+    (∀ now' p w, (recordQuestion H s.cfg (s.setFromResponse H now k.name k.qtype k.qclass k.cd false .useful).tab now' k p w).2.streak = 1) ∧
+    (∀ zone cls, zone ≠ [] → loadZone H (s.clearZoneFailure H cls zone).tab ⟨zone, cls⟩ = none) := by
+  have hk : (⟨k.name, k.qtype, k.qclass, k.cd, none⟩ : QKey) = k := by cases k; simp_all
+  have htab : (s.setFromResponse H now k.name k.qtype k.qclass k.cd false .useful).tab = (resetQuestion H s.tab k).1 := by
+    simp [Store.setFromResponse, Store.resetQuestionFailure, hen, hk]
+  have hload : loadQuestion H (resetQuestion H s.tab k).1 (normalizeQ k) = none := resetQuestion_load_none H s.tab k
+  refine ⟨by rw [htab]; exact hload, ?_, ?_⟩
+  · intro now' p w
+    rw [htab]
+    unfold recordQuestion
+    simp only
+    rcases record_cases s.cfg (resetQuestion H s.tab k).1 now' (H.q (normalizeQ k)) (questionCandidate (normalizeQ k) p w)
+      with ⟨_, hr⟩ | ⟨cur, hg, hs, _, _⟩ | ⟨cur, hg, hs, _, _⟩
+    · rw [hr]
+    all_goals
+      exfalso
+      unfold loadQuestion at hload
+      rw [hg] at hload
+      unfold sameKey questionCandidate at hs
+      simp only [Bool.and_eq_true, beq_iff_eq] at hs
+      obtain ⟨hkk, hm⟩ := hs
+      rw [hkk] at hm
+      simp only [beq_iff_eq] at hm
+      simp [hkk, hm] at hload
+  · intro zone cls hz
+    have : (s.clearZoneFailure H cls zone).tab = (resetZone H s.tab ⟨zone, cls⟩).1 := by
+      simp [Store.clearZoneFailure, hen, hz]
+    rw [this]
+    exact resetZone_load_none H s.tab ⟨zone, cls⟩
+
 /-! ## the kill switch -/
 
 /-- **rfc9520 off is inert.** With the switch off no Store entry point reads
@@ -1060,6 +1117,14 @@ example : (retryKey H1 (recordZone H1 cfg0 [] 0 ⟨exampleCom, 1⟩ 2 0).1 (5 * 
 -- non-vacuity: a genuine primary SERVFAIL plus a failing fallback IS filed (under the client's class CH)
 example : (Store.serveViaFailover H1 ⟨false, cfg0, []⟩ 0 ⟨wwwExampleCom, 16, 3, false, none⟩ .servfail .refused).tab.length = 1 := by decide
 example : (Store.serveViaFailover H1 ⟨false, cfg0, []⟩ 0 ⟨wwwExampleCom, 16, 3, false, none⟩ (.localFail .attemptLimit) .refused).tab.length = 0 := by decide
+
+-- optional_enrichment_never_shared / store_route_resets: non-vacuity
+example : cacheableResolutionFailure (v6JobCtx ⟨false, false, false, .none⟩) = false := by decide
+example : cacheableResolutionFailure ⟨false, false, false, .none⟩ = true := by decide
+example : (lookup H1 (Store.setFromResponse H1 ⟨false, cfg0, (recordQuestion H1 cfg0 [] 0 (qA wwwExampleCom) 1 0).1⟩ 1
+    wwwExampleCom 1 1 false false .useful).tab 2 (qA wwwExampleCom)) = none := by decide
+example : (lookup H1 (Store.clearZoneFailure H1 ⟨false, cfg0, (recordZone H1 cfg0 [] 0 ⟨exampleCom, 1⟩ 2 0).1⟩ 1 exampleCom).tab 1
+    (qA wwwExampleCom)) = none := by decide
 
 end Examples
 
